@@ -50,7 +50,10 @@ type Session struct {
 	ReturnChar string         `json:"return_char"`
 	ReadDelay  int            `json:"read_delay_us"`
 	HoldSpace  bool           `json:"hold_space"`
-	Seg        devsim.Seg     `json:"seg"`
+	// Poll: the transport's Read returns an empty slice (no error) when nothing is pending, as the
+	// transport interface allows, instead of blocking.
+	Poll bool       `json:"poll,omitempty"`
+	Seg  devsim.Seg `json:"seg"`
 }
 
 const termChars = "!%^&*+=~?|" // a command's last byte is taken from here and occurs nowhere else
@@ -210,6 +213,7 @@ func GenSession(r *rand.Rand, tier string) (Session, int) {
 	s.ReturnChar = []string{"\n", "\n", "\r", "\r\n"}[r.Intn(4)]
 	s.ReadDelay = []int{0, 50, 250}[r.Intn(3)]
 	s.HoldSpace = strings.HasSuffix(s.Prompt, " ") && r.Intn(2) == 0
+	s.Poll = r.Intn(6) == 0
 	rejected := 0
 	longest := 0
 	if r.Intn(3) == 0 {
@@ -363,7 +367,7 @@ func RunSession(s Session, h *Hooks) mon.Result {
 		}
 		return devsim.Reply{Out: []devsim.Token{devsim.T("% unexpected input " + fmt.Sprintf("%q", line) + d.NL)}}
 	}
-	conn := devsim.NewConn(dev, devsim.Config{Seg: s.Seg, KeepData: true})
+	conn := devsim.NewConn(dev, devsim.Config{Seg: s.Seg, KeepData: true, Poll: s.Poll})
 	defer conn.Abandon()
 	opts := []util.Option{
 		options.WithCustomTransport(conn),
@@ -625,6 +629,9 @@ func RunSession(s Session, h *Hooks) mon.Result {
 				obs["empty_commands_in_exact_mode"]++
 			}
 		}
+	}
+	if s.Poll {
+		obs["sessions_with_empty_transport_reads"]++
 	}
 	if s.API == "file" {
 		obs["command_file_sessions"]++
